@@ -11,6 +11,8 @@ open SF
 set_option linter.unusedSectionVars false
 set_option linter.unusedSimpArgs false
 set_option linter.unusedVariables false
+set_option linter.unusedTactic false
+set_option linter.unreachableTactic false
 variable {α : Type} [Field α] [LinearOrder α] [IsStrictOrderedRing α] [FloatLike α] [ExactScalar α] [Transc α]
 
 theorem gte (c : α) : (gteCore c).ReadyStable := by
@@ -149,6 +151,38 @@ theorem superSmoother (N : Nat) : (ssCore (α := α) N).ReadyStable := by
 /-- the same notion for complete views -/
 def _root_.SF.View.ReadyStable (V : View α) : Prop :=
   ∀ s x s', (∃ v, V.last s = .ok (some v)) → V.upd s x = .ok s' → V.last s' ≠ .ok none
+
+
+/-! ### TrendFlex / ReFlex / NET: the emitted value is either new or the one held before -/
+theorem flexEmit_keep (N : Nat) (lastM v : α) (q : List α) (dsum : α) (dflt : Option α) (s' : FlexState α)
+    (h : flexEmit N lastM v q dsum dflt = .ok s') : (∃ o, s'.out = some o) ∨ s'.out = dflt := by
+  simp only [flexEmit, bind, Except.bind, pure, Except.pure, assertFinite_exact] at h
+  split at h
+  · cases h; exact Or.inl ⟨_, rfl⟩
+  · cases h; exact Or.inr rfl
+
+theorem reFlex (N : Nat) : (rflexCore (α := α) N).ReadyStable :=
+  of_keep _ (fun s => s.out) (fun _ => rfl) (by
+    intro s x s' hs
+    simp only [rflexCore, bind, Except.bind] at hs
+    repeat' (split at hs <;> try (cases hs; done))
+    all_goals exact flexEmit_keep _ _ _ _ _ _ _ hs)
+
+theorem trendFlex (N : Nat) : (tflexCore (α := α) N).ReadyStable :=
+  of_keep _ (fun s => s.out) (fun _ => rfl) (by
+    intro s x s' hs
+    simp only [tflexCore, bind, Except.bind] at hs
+    repeat' (split at hs <;> try (cases hs; done))
+    all_goals (rcases flexEmit_keep _ _ _ _ _ _ _ hs with h | h
+               · exact Or.inl h
+               · exact Or.inl ⟨_, h⟩))
+
+theorem net (N : Nat) : (netCore (α := α) N).ReadyStable :=
+  of_keep _ (fun s => s.out) (fun _ => rfl) (by
+    intro s x s' hs
+    simp only [netCore, bind, Except.bind, pure, Except.pure, assertFinite_exact] at hs
+    repeat' (split at hs <;> try (cases hs; done))
+    all_goals first | (cases hs; first | exact Or.inl ⟨_, rfl⟩ | exact Or.inr rfl) | skip)
 
 /-- **a chain's readiness never reverts if its outermost core's does not** — whatever the inner view does (it may even relapse):
 the core is stepped only when the inner view delivers, and `last()` of the chain is the core's -/
